@@ -34,6 +34,7 @@ TConv ==
        <<"C03-floor-of-next", ~FloorOK(Add(E.k, One), E.n, E.d, E.sec2, E.ps2)>>,
        <<"C03-ceil-of-floor", ~CeilOK(E.sec, E.ps, E.n, E.d, E.idx)>>,
        <<"C03-round-trip", Le(E.n, Mul(E.d, E12)) /\ E.idx # E.k>>,
+       <<"C03-get-unix-time-raised", Has(E, "pyerr") /\ E.pyerr>>,
        <<"C03-python-differs-from-c", E.haspy /\ (E.pysec # E.sec \/ E.pyps # E.ps)>>,
        <<"C03-calendar", E.haspy /\ ~CalOK([sec |-> E.pysec, days |-> E.days, sod |-> E.sod, Y |-> E.Y, M |-> E.M, D |-> E.D,
                                             h |-> E.h, mi |-> E.mi, s |-> E.s])>>,
